@@ -746,6 +746,16 @@ def scenario_probes(run, kinds, modules=('std', 'safe'), backends=('plain', 'dic
                             ops += [{'op': 'call', 'a': a} for a in keys[:ms + 1]] + [{'op': 'info'}]
                             run.jobs.append((dict(base), ops, None))
                             run.jobs.append((dict(base, purge=True), ops, None))
+                    if 'purge_off' in kinds and backend != 'plain' and 2 * ms + 2 <= NX:
+                        # keys used twice, an overflow that purges to the archive, the archive switched off, more overflows
+                        for off in ('arch_off', 'set_null'):
+                            ops = []
+                            for a in keys[:ms]:
+                                ops += [{'op': 'call', 'a': a}, {'op': 'call', 'a': a}]
+                            ops += [{'op': 'call', 'a': keys[ms]}, {'op': 'info'}]
+                            ops += [{'op': 'arch_off'}] if off == 'arch_off' else [{'op': 'set_archive', 'x': 0}]
+                            ops += [{'op': 'call', 'a': a} for a in keys[ms + 1:2 * ms + 2]] + [{'op': 'info'}]
+                            run.jobs.append((dict(base, purge=True), ops, None))
                     if 'peek' in kinds:
                         ops = []
                         for n, a in enumerate(keys[:ms]):
@@ -824,7 +834,7 @@ def check_C05(tier):
     t = tier == 'thorough'
     scenario_spellings(run, 30 if t else 20, reps=6 if t else 1)
     scenario_recursive(run, 1500 if t else 250)
-    scenario_probes(run, {'clear', 'compaction'})
+    scenario_probes(run, {'clear', 'compaction', 'purge_off'}, backends=('plain', 'dictarch', 'file'))
     scenario_random(run, BOUNDED, ['std', 'safe'], ['plain', 'dictarch', 'file', 'dir', 'sql'], 1500 if t else 250,
                     40 if t else 30, maxsizes=(1, 2, 3, 4), nx=6, profile='setarch')
     return run.finish(assumptions=ASSUME)
@@ -833,9 +843,12 @@ def check_C05(tier):
 def check_C06(tier):
     run = CacheRun('C06', tier)
     plan_common(run, 'C06', ['lfu', 'lru', 'mru', 'rr'],
-                ops=['call', 'clear', 'lookup', 'dump', 'arch_off', 'arch_on'],
+                ops=['call', 'clear', 'lookup', 'dump', 'load', 'arch_off', 'arch_on'],
                 args=[1, 2, 3, 4, 8], narchs=(0, 1), purges=(False,), maxsizes=(1, 2, 3),
                 depth_q=7, depth_t=10)
+    # bulk loads that put more entries into memory than maxsize, then misses (the random policy removes exactly one)
+    scenario_random(run, ['rr', 'lru', 'lfu', 'mru'], ['std', 'safe'], ['dictarch', 'file'], 600 if tier == 'thorough' else 120, 30,
+                    maxsizes=(1, 2), purges=(False,), nx=6)
     # long call-only walks: the LRU queue compaction (more than 10*maxsize recorded uses) must be crossed
     t = tier == 'thorough'
     longs = []
